@@ -9,11 +9,11 @@ claim("C09",
 _TRUST = "Trusted: go/types + go/ssa of x/tools v0.29.0 (IR, static callee resolution), the rule implementations and reviewed tables under /verif (spec/, closed-world and axiom tables in ranges_axioms.go), and the named axioms printed in the evidence; calls made by fmt through reflection are not followed."
 
 claim("C04",
-      "finite decision tables over comparison atoms (3^6 orderings), path enumeration with interval constraints for the 1582 sites, symbolic arm comparison, delegation-shape and constant-agreement checks over go/ssa",
+      "decision tables read off the SSA form by an expression evaluator over finite abstract domains (loop-free regions, helpers inline, library numeric calls as abstract atoms; no library code runs) for the 3^6 component orderings of IsBefore/IsAfter; path enumeration with interval constraints for the 1582 sites, symbolic arm comparison, delegation-shape and constant-agreement checks over go/ssa",
       "Decides the structural half of civil date arithmetic: IsBefore/IsAfter are the strict lexicographic orders (complete for these functions); every October-1582 special case describes the same gap (days 5..14 absent, offset 10) and the switch constants agree; derived operations delegate with the right arguments; stepping results depend on the step; the two arms of the day difference are mirror images; clamps consult the target year/month. It does not decide the exactness of the Julian-Day formula or the additivity of NextDay (numeric).",
       _TRUST, "DESIGN.md 4/C04")
 claim("C05",
-      "interval analysis of the pillar-index fields (E3), effects-based accessor/variant routing against names and a reviewed declared-inputs table (E2), decision shape of the 23:00 rule, typed string-as-time comparisons",
+      "interval analysis of the pillar-index fields (E3), effects-based accessor/variant routing against names and a reviewed declared-inputs table (E2), decision tables read off the SSA form by an expression evaluator over finite abstract domains (loop-free regions, helpers inline, library numeric calls as abstract atoms; no library code runs) for the 23:00 rule (hour x minute x 60 pillars), typed string-as-time comparisons",
       "Decides that every stored pillar index stays in its cycle, that each of ~180 pillar accessors reads exactly the pillar and variant its name (or the reviewed table) says, that the early-rat day pillar advances exactly in 23:00-23:59, that change-over comparisons are half-open and compare like renderings. Holds for every date by construction; the instants of the change-overs themselves are numeric and not decided.",
       _TRUST, "DESIGN.md 4/C05")
 claim("C08",
@@ -25,11 +25,11 @@ claim("C11",
       "Decides necessary conditions of route agreement: paired routes (hour object vs lunar hour accessors, year object vs New-Year year accessors) read the same fields, tables and term keys; every EightChar use of a day-pillar accessor is the variant selected by sect; deprecated aliases are pure delegations; default accessors delegate to the documented school and all objects agree on it; no accessor memoises. Equality of duplicated arithmetic on equal inputs is not decided.",
       _TRUST, "DESIGN.md 4/C11")
 claim("C15",
-      "value-dependence slicing (E4) for step relevance, list element-type flow, constant-trip-count and multiplier agreement checks",
-      "Decides that every stepping method's result depends on its step (or is pinned by n == const), that the lists of days/months hold the asserted element types and the fixed unit sizes 7/3/6/12, and that week/season/half-year steps use the same multipliers. Week-index arithmetic and the exact month-separated walk are numeric and not decided.",
+      "value-dependence slicing (E4) for step relevance, list element-type flow, constant-trip-count and multiplier agreement checks, decision tables read off the SSA form by an expression evaluator over finite abstract domains (loop-free regions, helpers inline, library numeric calls as abstract atoms; no library code runs) for the week-index, weeks-of-month, first-day and month-step arithmetic",
+      "Decides that every stepping method's result depends on its step (or is pinned by n == const), that GetWeeksOfMonth / GetIndex / GetIndexInYear / GetFirstDay equal the ceil((ordinal + wrapped weekday offset)/7) formulas for every weekday, first weekday and day (October 1582 included) and SolarMonth.Next lands on month 12*year+month-1+n, that the lists of days/months hold the asserted element types and the fixed unit sizes 7/3/6/12, and that week/season/half-year steps use the same multipliers. Week-index arithmetic and the exact month-separated walk are numeric and not decided.",
       _TRUST, "DESIGN.md 4/C15")
 claim("C17",
-      "affine forms over SSA (E11) for the epoch offsets and their inverses, delegation shape, declared-inputs check of the day-class predicates, table well-formedness",
+      "affine forms over SSA (E11) for the epoch offsets and their inverses, delegation shape, declared-inputs check of the day-class predicates, table well-formedness, argument-role typing of year/month/day/hour/minute/second values, decision tables read off the SSA form by an expression evaluator over finite abstract domains (loop-free regions, helpers inline, library numeric calls as abstract atoms; no library code runs) for the Taoist/Buddhist constructors",
       "Decides that the Taoist/Buddhist year is lunar year + 2697 / + 544 as an affine identity and that the constructors invert it, that month/day delegate to the lunar date, that predicates read only their defining inputs and obtain the day's term through the alias-aware accessor, and that no Taoist/Buddhist year is passed where a lunar year is expected.",
       _TRUST, "DESIGN.md 4/C17")
 claim("C18",
@@ -37,20 +37,20 @@ claim("C18",
       "Decides purity in the sense of the property: each attribute accessor reads exactly its declared defining inputs (per school) and writes nothing, so moments sharing the inputs share the attribute; membership literals contain only stems/branches/pillars; the 28-mansion, duty-god, clash, nayin-pair and spirit-offset laws hold on the tables. Whether table values match the classical sources beyond these laws is not decided.",
       _TRUST, "DESIGN.md 4/C18")
 claim("C19",
-      "Sprintf format typing (E10): verbs, widths, argument provenance; injectivity of the name tables; rendering-kind typing of every string-as-time comparison",
+      "decision tables read off the SSA form by an expression evaluator over finite abstract domains (loop-free regions, helpers inline, library numeric calls as abstract atoms; no library code runs) for ToYmd/ToYmdHms; injectivity of the name tables; rendering-kind typing (E10) of every string-as-time comparison; interval analysis of the renderers' table indices",
       "Decides that ToYmd/ToYmdHms are fixed-width zero-padded renderings of the receiver's fields in order, that digit/month/day name tables are injective and separator-free with the documented shape of the Chinese renderings, and that all 30 string-as-time comparisons compare equal rendering kinds. With the field ranges of C07 this yields parse-back and chronological sorting; a re-implementation without Sprintf is reported as undecided.",
       _TRUST, "DESIGN.md 4/C19")
 
 claim("C01",
-      "delegation-shape and symbolic-expression checks, effects-based constructor agreement, branch-fact reasoning for the civil-year anchoring of the term table",
+      "decision tables read off the SSA form by an expression evaluator over finite abstract domains (loop-free regions, helpers inline, library numeric calls as abstract atoms; no library code runs) for the stepping delegation, effects-based constructor agreement, branch-fact reasoning for the civil-year anchoring of the term table",
       "Decides the structural necessary conditions of the round trip only: lunar stepping is civil stepping followed by conversion; both constructors assign all 29 fields through the same builder and copy date/time fields like-to-like; the term table passed to the builder is provably that of the civil year; the day offsets of the two routes cancel. It does not decide that conversion round-trips on any date: the month table and the leap overrides are numeric data (a transposed LEAP_11 entry is invisible here).",
       _TRUST, "DESIGN.md 4/C01")
 claim("C03",
-      "literal-table laws for the term names, parity arithmetic on selector indices, a finite decision table (144 abstract cases over 49 body paths) for the nearest-term search, typed comparisons, constant checks",
+      "literal-table laws for the term names (incl. the filter vocabulary with convertJieQi folded), parity arithmetic on selector indices, decision tables read off the SSA form by an expression evaluator over finite abstract domains (loop-free regions, helpers inline, library numeric calls as abstract atoms; no library code runs) for the nearest-term search (144 abstract cases), typed comparisons, constant checks",
       "Decides the order/lookup half of the property: table keys are in canonical order with the right aliases; Jie/Qi selectors use the right parity; 'previous term = latest at or before, next term = earliest strictly after' holds for every ordering of (term, now, best) on every path; day-level lookups compare year, month and day of the civil date; the UTC+8 shift is 1/3 day added once. That instants are roots of the solar longitude is numeric and not decided.",
       _TRUST, "DESIGN.md 4/C03")
 claim("C06",
-      "structural predicates on the in-year filters, value-dependence and boundary-key checks on the month walk, effects-based immutability of published tables, shape of the override membership scan",
+      "decision tables read off the SSA form by an expression evaluator over finite abstract domains (loop-free regions, helpers inline, library numeric calls as abstract atoms; no library code runs) for the four in-year filters, value-dependence and boundary-key checks on the month walk, effects-based immutability of published tables (builders recognised by behaviour), shape of the override membership scan",
       "Decides a thin structural part: the four in-year views filter by one predicate; month stepping depends on its step and re-anchors on the boundary month's own (year, month); nothing mutates a published year table; the LEAP_11/LEAP_12 membership scan visits every element and the tables are sorted and disjoint. Month counts, lengths and neighbour-table agreement are numeric and not decided.",
       _TRUST, "DESIGN.md 4/C06")
 claim("C07",
@@ -70,7 +70,7 @@ claim("C13",
       "Decides inputs, constants and interval shapes: which terms, which day-stem variant and which lunar fields each counter reads; 81 = 9*9, geng = 6, wu = 4, +20/+10/+40, pentads of 5 capped at the third, 72 = 3*24; start <= day < start+81; middle period extended iff Liqiu strictly after; Chuxi iff |month| == 12, day >= 29 and the year changes tomorrow. That counters land on the right civil days is numeric.",
       _TRUST, "DESIGN.md 4/C13")
 claim("C14",
-      "literal-table laws for the 18-byte records, scan/layout agreement, order-preserving-writer check on Fix, decision shape of workday and pay-rate logic, effects-based single-table check",
+      "literal-table laws for the 18-byte records, scan/layout agreement, order-preserving-writer check on Fix and its helpers, decision tables read off the SSA form by an expression evaluator over finite abstract domains (loop-free regions, helpers inline, library numeric calls as abstract atoms; no library code runs) for the workday and pay-rate decisions and the lookup keys, effects-based single-table check",
       "Decides: record layout, key formats and builder offsets agree; the built-in table is well-formed and strictly sorted; the by-target lookup does not assume adjacency that the table lacks; Fix writes only by in-place replace or sorted insert; the workday walk steps one day, consults the stepped day's record and counts working days; all views read the one live table and none memoises. The effect of arbitrary Fix strings is run-time data and not decided.",
       _TRUST, "DESIGN.md 4/C14")
 claim("C16",
@@ -78,7 +78,7 @@ claim("C16",
       "Decides that every star index is in [0,8] with 9-entry naming tables, that the duplicated hour/year/month star formulas read corresponding inputs and use the same epoch constants, and that each star accessor reads the pillars of its school. The step rules themselves are arithmetic and not decided.",
       _TRUST, "DESIGN.md 4/C16")
 claim("C20",
-      "path enumeration with interval constraints over all 366 month-day codes (complete for GetXingZuo), symbolic evaluation of the occurrence expression over 31 days, format/argument typing of festival keys",
+      "decision tables read off the SSA form by an expression evaluator over finite abstract domains (loop-free regions, helpers inline, library numeric calls as abstract atoms; no library code runs) over all 366 month-day codes (complete for GetXingZuo) and over (day, month length) for the last-weekday lookup; key templates (how a string key is composed, whatever the syntax) for the festival lookups; evaluation of the occurrence expression over 31 days",
       "Decides the zodiac clause completely (exactly one sign per date, contiguous runs in order starting on the conventional days, inputs month and day only) and the key construction of weekday festivals (occurrence = ceil(day/7), last = day+7 > month length, own weekday, well-formed tables). 'Exactly once per year' needs weekday arithmetic and is not decided.",
       _TRUST, "DESIGN.md 4/C20")
 
